@@ -240,7 +240,7 @@ class _KK:
     @staticmethod
     def scripts(tier, seed, scale=1):
         out = []
-        ops = ["k arm 0", "k addref 0", "k unref 0"]
+        ops = ["k arm 0", "k addref 0", "k unref 0", "k sendfail 1"]
         for h in range(2):
             ops += ["k defer %d 0" % h, "k defer %d 0 nomem" % h, "k release %d" % h]
         for hist in itertools.product(ops, repeat=4 if tier == "quick" else 5):
@@ -251,7 +251,7 @@ class _KK:
             ops2 += ["k arm %d" % o, "k addref %d" % o, "k unref %d" % o]
             for h in range(3):
                 ops2 += ["k defer %d %d" % (h, o), "k defer %d %d nomem" % (h, o)]
-        ops2 += ["k release %d" % h for h in range(3)] * 2
+        ops2 += ["k release %d" % h for h in range(3)] * 2 + ["k sendfail 1", "k sendfail 0"]
         for k in range((300 if tier == "quick" else 4000) * scale):
             lines = ["k begin", "k new"] + (["k new"] if r.random() < 0.5 else [])
             for _ in range(r.choice([4, 8, 16, 30])):
